@@ -486,6 +486,13 @@ pub fn run(tier: &str, root: &Path, shard: usize, nshards: usize) -> Value {
         vol.push(vec![(Pause::None, a.clone()), (Pause::AfterTick, noise(len / 2, 64, 2))]);
         vol.push(vec![(Pause::None, noise(100, 0, 3)), (Pause::AfterTick, a.clone())]);
     }
+    // one long unterminated line (around and above 64 KiB, not a multiple of it) still pending when a
+    // flush tick fires, continued or ended afterwards
+    for (i, len) in [65_535usize, 65_536, 65_537, 108_894, 131_077, 200_001].into_iter().enumerate() {
+        let a = noise(len, 0, 10 + i as u64);
+        vol.push(vec![(Pause::None, a.clone()), (Pause::AfterTick, b"END\n".to_vec())]);
+        vol.push(vec![(Pause::None, a.clone()), (Pause::After2, noise(70_001, 0, 20 + i as u64)), (Pause::AfterTick, b"\n".to_vec())]);
+    }
     vol.par_iter().enumerate().filter(|(k, _)| k % nshards == shard).for_each(|(k, steps)| {
         let dir = thread_dir(root);
         let sc = Script { steps: steps.clone(), final_pause: Pause::None };
@@ -520,7 +527,7 @@ pub fn run(tier: &str, root: &Path, shard: usize, nshards: usize) -> Value {
     rep.sample(json!({"members": members_value(&[(Script { steps: vec![(Pause::None, b"AAA".to_vec()), (Pause::AfterTick, b"BBB\n".to_vec())], final_pause: Pause::None }, Script::empty())]), "seed": 0}));
     rep.sample(json!({"members": members_value(&[(scripts[scripts.len() / 2].clone(), Script::empty())]), "seed": 1}));
     rep.finish(
-        "part 1: every script (sequence of (pause class, chunk) steps, then a final pause class before EOF) of length <=3 over the chunk alphabet x 5 pause classes relative to the 500 ms flush tick, one stream, every select! seed listed (thorough adds length 4 over a 3-chunk alphabet); part 2: 2 members x 2 streams with per-stream distinct bytes, default script plus every combination of <=bound single-stream deviations (split+pause, pause, no final newline, binary, 20 kB line, empty), and group sizes 1,2,3,5,8; part 3: incompressible (pseudo-random) volume of 140 kB - 700 kB per stream as short lines, as one long line and split by a pause; each execution = real process_reader + real Compressor threads under a paused clock; oracle: every stored file decodes to exactly the bytes written to that stream; non-trivial = scripts in which a pause follows an unterminated line (part 1) / every plan (part 2)",
+        "part 1: every script (sequence of (pause class, chunk) steps, then a final pause class before EOF) of length <=3 over the chunk alphabet x 5 pause classes relative to the 500 ms flush tick, one stream, every select! seed listed (thorough adds length 4 over a 3-chunk alphabet); part 2: 2 members x 2 streams with per-stream distinct bytes, default script plus every combination of <=bound single-stream deviations (split+pause, pause, no final newline, binary, 20 kB line, empty), and group sizes 1,2,3,5,8; part 3: incompressible (pseudo-random) volume of 140 kB - 700 kB per stream as short lines, as one long line and split by a pause, plus unterminated lines of 65535..200001 bytes held across one and two flush ticks; each execution = real process_reader + real Compressor threads under a paused clock; oracle: every stored file decodes to exactly the bytes written to that stream; non-trivial = scripts in which a pause follows an unterminated line (part 1) / every plan (part 2)",
         true,
         json!({"script_len": len, "chunks": alpha.len(), "pause_classes": 5, "final_pause_classes": 2, "deviation_bound": bound, "seeds": seeds.len()}),
     )
